@@ -90,9 +90,10 @@ PROPERTIES = {
     "C09": dict(
         groups=[
             E_BINDING(
-        overlay={"gen/binding/zz_verif_c09.go": "harness/c09/c09_headers.go"},
+        overlay={"gen/binding/zz_verif_c09.go": "harness/c09/c09_headers.go", "gen/binding/zz_verif_c09b.go": "harness/c09/c09_bytes.go"},
         harnesses=[dict(func="VerifC09Merge", reach=["C09/merge-decided", "C09/override-relaxes"], quick=dict(budget=300), thorough=dict(budget=1200)),
-                   dict(func="VerifC09Value", reach=["C09/value-decided", "C09/uuid-shape", "C09/undecided-by-reference"], quick=dict(budget=300, parts=8), thorough=dict(budget=1200, parts=8))]),
+                   dict(func="VerifC09Value", reach=["C09/value-decided", "C09/uuid-shape", "C09/undecided-by-reference"], quick=dict(budget=300, parts=8), thorough=dict(budget=1200, parts=8)),
+                   dict(func="VerifC09NonUTF8Values", reach=["C09/bytes/decided"], quick=dict(budget=60), thorough=dict(budget=120))]),
             dict(mode="G", load_pkgs=["./internal/tsservergen"], pkgpath=MOD + "/internal/tsservergen", test_pkg="./internal/tsservergen", test_pkgname="tsservergen",
                  init=DEFAULT_INIT,
                  overlay={"internal/tsservergen/zz_verif_c09.go": "harness/c09/c09_ts_g.go"},
